@@ -358,6 +358,16 @@ def nd_getitem(I, st, ref, idx):
         M = _M()
         yield from M.index_concrete_seq(I, st, e.data, idx, ref)
         return
+    if isinstance(idx, SliceVal) and len(e.shape) == 1 and any(is_z3(as_arith(b)) for b in (idx.lo, idx.hi) if b is not None):
+        # 1-d slice with a symbolic integer bound: fork over its feasible clamped values (as for lists)
+        M = _M()
+        for st1, sl in M.slice_cases(I, st, e.shape[0], idx):
+            d = list(st1.get(ref).data)[sl]
+            r = NdE((len(d),), d)
+            if "dtype" in e.__dict__:
+                r.dtype = e.dtype
+            yield st1, st1.alloc(r)
+        return
     try:
         shape, pos = resolve_index(I, st, e.shape, idx)
     except IndexError:
@@ -680,6 +690,24 @@ def make_module(I):
         yield st, (ops.z_abs(x) if is_z3(x) else abs(x))
 
     N["abs"] = Builtin("numpy.abs", elementwise(_abs))
+
+    def _rint(I, st, x):
+        """np.rint: round half to even, result stays a float (A1: a real with an integer value)"""
+        x = as_arith(x)
+        if isinstance(x, bool) or not is_number(x):
+            raise Unsupported("np.rint of %r" % (x,))
+        if is_z3(x):
+            if z3.is_int(x):
+                yield st, z3.ToReal(x)
+            elif z3.is_app_of(x, z3.Z3_OP_TO_REAL):
+                yield st, x
+            else:
+                I.trust("round", "A1: round(x) is round-half-to-even over the reals")
+                yield st, z3.ToReal(ops.z_round_half_even(x))
+        else:
+            yield st, Fraction(round(Fraction(x)))
+
+    N["rint"] = Builtin("numpy.rint", elementwise(_rint))
     N["absolute"] = N["abs"]
     N["ndarray"] = BuiltinClass("ndarray")
     reg("dtype", lambda I, st, d: DtypeVal(as_dtype_kind(d)))
@@ -812,6 +840,27 @@ def make_module(I):
         return st.alloc(e)
 
     reg("reshape", _reshape)
+
+    def _concatenate(I, st, seq, axis=0):
+        """np.concatenate((a1, a2, ...)) of 1-d arrays / sequences along axis 0: the entries in order"""
+        if axis != 0:
+            raise Unsupported("np.concatenate along an axis other than 0")
+        parts = I.iterate(seq, st)
+        if not parts:
+            return exc("ValueError", "need at least one array to concatenate")
+        data = []
+        for part in parts:
+            sh, d = asnd(I, st, part)
+            if len(sh) == 0:
+                return exc("ValueError", "zero-dimensional arrays cannot be concatenated")
+            if len(sh) != 1:
+                raise Unsupported("np.concatenate of arrays with more than one dimension")
+            data.extend(d)
+        if not all(is_number(x) or is_nan(x) for x in data):
+            raise Unsupported("np.concatenate of non-numeric arrays")
+        return mk(I, st, list(data))
+
+    reg("concatenate", _concatenate)
     def _isnan(I, st, v):
         """A1: a real is never NaN; the literal np.nan (kept as an uninterpreted element of float arrays) is"""
         if isinstance(v, Ref) and st.get(v).kind == "nd":
